@@ -427,7 +427,9 @@ func ruleNumberSign(c *Ctx) {
 		if f.Pkg != ppk {
 			continue
 		}
-		for _, call := range findCalls(f, func(cal *ssa.Function) bool { return cal.Pkg != nil && cal.Pkg.Pkg.Path() == decimalPkg && cal.Name() == "NewFromString" }) {
+		for _, call := range findCalls(f, func(cal *ssa.Function) bool {
+			return cal.Pkg != nil && cal.Pkg.Pkg.Path() == decimalPkg && cal.Name() == "NewFromString"
+		}) {
 			for v := range backSlice(call.Common().Args[0]) {
 				if nc, ok := v.(*ssa.Call); ok {
 					if cal := nc.Common().StaticCallee(); cal != nil && cal.Pkg == ppk && cal.Signature.Params().Len() == 1 && cal.Signature.Results().Len() == 1 &&
